@@ -56,7 +56,12 @@ def peewee_v2_to_sqlite_v1(datastore):
             bucket["hostname"],
             bucket["created"],
             bucket["name"],
+            bucket["data"],
         )
         bucket_events = pw_db.get_events(bucket_id, -1)
+        for event in bucket_events:
+            # The ids are local to the legacy database, events carrying an id would be
+            # treated as updates of (non-existent) rows by insert_many
+            event.id = None
         datastore.insert_many(bucket_id, bucket_events)
     logger.info("Migration of peewee v2 to sqlite v1 finished")
